@@ -93,6 +93,23 @@ func nameSites() []nameSite {
 			s.Paths = append(s.Paths, &spec.PathItem{Template: "/" + b + "/y", Ops: []*spec.Op{{Method: "GET", Responses: []*spec.Response{{Status: "default", Desc: "d"}}}}})
 			return s
 		}},
+		// path-derived operation names meet component responses (the write<Op> methods of a shared
+		// response are named from the path by a second piece of code)
+		{"pathparam+compresp", func(n string) *spec.Spec {
+			s, pi, op := Base()
+			pi.Template = "/users/{" + n + "}"
+			op.Params = []*spec.Param{{Name: n, In: "path", Required: true, Schema: spec.T("string")}}
+			s.Comp.Responses = append(s.Comp.Responses, spec.NamedResponse{Name: "NotFound", Response: &spec.Response{Desc: "r", Schema: objAB()}})
+			op.Responses = []*spec.Response{{Status: "200", Desc: "ok"}, {Status: "404", Ref: "NotFound"}}
+			return s
+		}, nil},
+		{"pathsegment+compresp", func(n string) *spec.Spec {
+			s, pi, op := Base()
+			pi.Template = "/" + n + "/"
+			s.Comp.Responses = append(s.Comp.Responses, spec.NamedResponse{Name: "NotFound", Response: &spec.Response{Desc: "r", Schema: objAB()}})
+			op.Responses = []*spec.Response{{Status: "200", Desc: "ok"}, {Status: "404", Ref: "NotFound"}}
+			return s
+		}, nil},
 		{"operationId", func(n string) *spec.Spec {
 			s, _, op := Base()
 			op.ID = n
